@@ -85,17 +85,9 @@ CLAIMED = {
    ref="DESIGN.md §4 C08"),
 
  "C07": dict(
-   text="PARTIAL proof. The full statement (DroopPSC in lean/VK/Props/C07.lean) is kept visible as a definition; proved so far are the arithmetic and combinatorial lemmas of the Droop proportionality argument over the model's count state, for all sizes: (m+1) thresholds exceed the total weight and the threshold is >= 1; a ballot solid for S counts for a member of S while one is hopeful; a fractional transfer leaves a coalition at least its weight minus one quota; pigeonhole (h <= d hopeful members sharing d quotas contain one at the quota, so a coalition holding its quotas loses nobody to elimination); a simultaneous step cannot over-fill; a candidate at the threshold is selected by the quota test. The run-level induction assembling them is not finished. The full statement is decided on the implementation by the monitor: for every finished STV/IRV run (fractional and random transfer, both modes, all tiebreaks) ALL candidate subsets S are enumerated and min(floor(W_S/threshold), |S|, m) members must be elected; coalitions are planted with weight exactly k*threshold and 1/10^6 below. The model is tied to the code by the same per-round correspondence as C02.",
-   note="Trusted: Lean kernel + standard axioms; the run-level theorem is missing, so for complete runs the property is checked (all S, every explored run), not proved; random.sample as oracle.",
-   ref="DESIGN.md §4 C07"),
- "C14": dict(
-   text="Lean theorems about the builders the generator model assembles profiles with (every number of ballots, candidates, blocs): counting a pool of N unit ballots gives positive whole-number weights adding up to N; by-bloc profiles add up to the aggregate (weight maps and totals); a ballot built from a duplicate-free draw plus a tied group of zero-support candidates lists no candidate twice and only declared candidates, is complete with the zero-support candidates as one final group when the draw covers the supported ones, and lists exactly ballot_length candidates in the short model; cumulative ballots distribute exactly num_votes whole points on drawn candidates; filling a slate pattern uses each candidate once; the distance sort is a permutation; the Huntington-Hill specification hands out exactly N seats. Correspondence: all 16 generator paths are run with every random primitive and the apportionment call recorded; the Lean model replays the log - checking that each call is the documented one (population aligned with its probability vector within 1e-9, size, replace flag, documented proportion vector) and each result meets the primitive's contract - re-assembles by-bloc and aggregate profiles and is compared with the implementation's. Monitors on the implementation: total weight, whole positive weights, declared candidates once, completeness / final zero-support tie per bloc, short-PL length, cumulative points, by-bloc sums, bloc sizes against an independent exact Huntington-Hill.",
-   note="Trusted: Lean kernel + standard axioms; numpy / random samplers and apportionment.compute modelled by contract (results validated on every run), pickle + Cambridge data file, float interval arithmetic compared at 1e-9. The theorems are about the builders and hold for every log that meets the contracts; that Gen.run accepts only such logs is by inspection of its validation code, not a theorem. Open findings F-C14-a (zero-weight party seated by the apportionment library), F-C14-b (MCMC with one supported candidate); repaired F-C16-a/b.",
-   ref="DESIGN.md §4 C14, §9"),
- "C16": dict(
-   text="Lean theorems: which_bin returns i exactly when the flip lies in (B_i, B_i+1], whose width is the i-th cohesion weight, and after a slate is used up the remaining weights are renormalised to sum to one; successive sampling (the assumed law of choice(p, replace=False)) gives c :: r probability x_c / sum x times the probability of r from the rest, with total mass one; cumulative votes are i.i.d.; swapping adjacent entries multiplies the name-BT table weight by x_b / x_a and the Metropolis kernel min(1, x_b/x_a) satisfies detailed balance w.r.t. the _BT_pdf table; an adjacent own/other swap changes the slate-BT success count by one and the (repaired) kernel satisfies detailed balance w.r.t. _compute_ballot_type_dist for every cohesion in (0,1); the uniform law gives each complete ranking 1/#rankings; the spatial sort returns the candidates in non-decreasing distance; crossover ballots alternate the two drawn orders; slate restriction keeps the drawn order. Correspondence: the same call-by-call replay as C14 on parameter sets biased to N >= 2, three blocs and cohesion below 1/2 - arguments of every primitive call, which_bin of the recorded flips, acceptance decisions of the recorded uniforms. Monitors: every probability vector passed to numpy.random.choice is one of the generator's intervals aligned with its population; spatial ballots sorted by recomputed distances; crossover split equals the apportionment. After a broken correspondence the search compares empirical frequencies with the exact law (6 sigma) to exhibit a failing parameter set.",
-   note="Trusted: Lean kernel + standard axioms. CONDITIONAL on the named laws of the library primitives (successive sampling for replace=False, i.i.d. categorical, uniform flips, uniform shuffle, dirichlet(1e20) = uniform vector): no frequency test decides anything on the unchanged tree. PARTIAL: restriction-consistency of Plackett-Luce (CambridgeSampler draws on the combined interval and restricts to a slate) is stated (PLRestrictionConsistent) but not proved; MCMC claims are about the kernel (reversibility), not mixing. Repaired defects F-C16-a (AlternatingCrossover alignment, e9c096f), F-C16-b (slate-BT MCMC acceptance, 2e4a973); open F-C14-b.",
-   ref="DESIGN.md §4 C16, §9"),
+   text="FULL proof for the fractional transfer rule (C07_droop_psc_fractional): for every profile, candidate subset S, k, seat count, simultaneous or one-by-one mode, tiebreak setting and oracle value - if ballots solid for S weigh at least k thresholds (Droop), every finished count of the model elects at least min(k, |S|, m) members of S; corollary C07_irv_majority. Proved by an invariant over the count (psc_step / psc_loop / psc_final): recorded tallies are the tallies of the count state; weights stay non-negative; whoever the quota test elects holds a quota (both modes); a coalition loses at most one threshold per elected member and nothing to winners outside it; elected + hopeful members never drop below min(k,|S|) because with the coalition's quotas on its hopeful members the pigeonhole puts one of them at the threshold, so none can be eliminated; every quota-filled seat consumed a threshold, so m seats cannot be filled while the coalition still holds a quota (Droop bound). One explicit hypothesis hfpv (the scoring utility's initial first-place tallies are the initial count state's tallies - a decidable identity between two executable definitions) is evaluated by the driver on every correspondence case and reported as a disagreement if false. The random transfer rule is NOT covered by the theorem: it is decided on the implementation by the monitor (all candidate subsets S of every finished run, coalitions planted at exactly k*threshold and 1/10^6 below) and tied to the model by the per-round correspondence of C02.",
+   note="Trusted: Lean kernel + standard axioms; hypothesis hfpv checked per run, not proved; model fidelity as sampled (same per-round correspondence as C02); random.sample as oracle. PARTIAL: random_transfer (whole-ballot transfers) has no theorem - the coalition-weight lemma is proved for the fractional rule only.",
+   ref="DESIGN.md §4 C07, §9"),
 }
 TECH = "Lean 4 kernel-checked theorems over a hand-written executable model + differential correspondence check of the model against /repo/src + independent Python monitors"
 
